@@ -631,10 +631,15 @@ def oracle(case, obs):
             return ("c10:%s:call-never-returned" % group(t), "%s: caller %d never returned (cancelled at the end of the script)" % (t, k))
     # 3. answered calls return their response; after a failure the client stays usable
     for k in case.get("answered", []):
+        if res.get(str(k)) != "own" and t == "udp" and not reply_seen_arriving(obs, k):
+            obs.setdefault("_inconclusive", []).append(k)      # UDP may have dropped the reply: no verdict
+            continue
         if res.get(str(k)) != "own":
             return ("c10:%s:answered-call-failed" % group(t), "%s: caller %d was answered before the fault but returned %r" % (t, k, res.get(str(k))))
     f = case.get("follow")
-    if f is not None and res.get(str(f)) != "own" and not hv_is_env(res.get(str(f), "")):
+    if f is not None and res.get(str(f)) != "own" and t == "udp" and not reply_seen_arriving(obs, f):
+        obs.setdefault("_inconclusive", []).append(f)
+    elif f is not None and res.get(str(f)) != "own" and not hv_is_env(res.get(str(f), "")):
         return ("c10:%s:unusable-after-failure" % group(t), "%s: the call after the failure returned %r" % (t, res.get(str(f))))
     # 4. the victims of a lost connection get an error, not their deadline
     if case["fam"] == "fault" and case["fault"] not in ("silent",):
@@ -658,6 +663,15 @@ def oracle(case, obs):
                         "(Transport.Abort empties the pool, so onExit never cancels their context)" % (t, extra_s))
             return ("c10:%s:goroutines-left" % group(t), "%s: %d Send and %d Receive goroutines of dead connections left" % (t, extra_s, extra_r))
     return None
+
+
+def reply_seen_arriving(obs, k):
+    """the client's Receive handled a reply with the index of caller k's request after the peer sent it (hook event)"""
+    log = obs["log"]
+    snd = next((e for e in log if e["e"] == "peer-send" and e["k"] == k), None)
+    if snd is None:
+        return False
+    return any(e["e"] == "t:loadAndDelete" and e["i"] == snd["i"] and e["q"] > snd["q"] for e in log)
 
 
 def group(t):
@@ -752,6 +766,8 @@ def evaluate(ctx, cases, byid):
             ctx.bump("outcomes", r.split(":")[0])
         d = out if out.startswith("MODEL-ERROR") else compare(c, o, line, out, shown)
         w = oracle(c, o)
+        if o.get("_inconclusive"):
+            ctx.bump("inconclusive_udp_replies_possibly_dropped", None, len(o["_inconclusive"]))
         toks, summ = ([], {}) if out.startswith("MODEL-ERROR") else parse_model(out)
         if d:
             disagreements.append((c, o, d, out))
